@@ -74,4 +74,8 @@ pub enum ParserErrorKind {
         "expected a Pauli term with a word length of {word_length} to match the number of arguments, {num_args}"
     )]
     PauliTermArgumentMismatch { word_length: usize, num_args: usize },
+
+    /// An expression is nested more deeply than the parser supports.
+    #[error("expression is nested more than {limit} levels deep")]
+    ExpressionTooDeep { limit: usize },
 }
